@@ -182,3 +182,121 @@ theorem roundtrip_bytes (hN : StepN) (ss : List Sample3) (hlen : ss.length ≤ 6
   simp only [decodeChunk, encodeBytes, chunkBytes, hn, fromBytes_toBytes, padTo8, hK1, hK2, hd]
 
 end Prom.ChunkXor2
+
+/- UNFINISHED: proof script for `StepN` (three paths of `encNext`), elaboration did not terminate in time.
+
+
+theorem encFast_fst (a : App) (t : Int) (v : Nat) :
+    (encFast a t v).1 = (tvBits a.v a.leading a.trailing (dodOf a t) v).1 := rfl
+theorem encFast_snd (a : App) (t : Int) (v : Nat) :
+    (encFast a t v).2 = { a with t := t, v := baseOf a.v v, tDelta := toU (t - a.t),
+            leading := (tvBits a.v a.leading a.trailing (dodOf a t) v).2.1,
+            trailing := (tvBits a.v a.leading a.trailing (dodOf a t) v).2.2 } := rfl
+theorem encActive_fst (a : App) (st t : Int) (v : Nat) :
+    (encActive a st t v).1 = (tvBits a.v a.leading a.trailing (dodOf a t) v).1 ++
+      putVarbitInt (wrapI (wrapI (a.t - st) - a.stDiff)) := rfl
+theorem encActive_snd (a : App) (st t : Int) (v : Nat) :
+    (encActive a st t v).2 = { a with st := st, t := t, v := baseOf a.v v, tDelta := toU (t - a.t), stDiff := wrapI (a.t - st),
+            leading := (tvBits a.v a.leading a.trailing (dodOf a t) v).2.1,
+            trailing := (tvBits a.v a.leading a.trailing (dodOf a t) v).2.2 } := rfl
+theorem encSlow_fst (k : Nat) (a : App) (st t : Int) (v : Nat) :
+    (encSlow k true a st t v).1 = (encodeJoint a.v a.leading a.trailing (dodOf a t) v).1 ++
+      putVarbitInt (wrapI (a.t - st)) := rfl
+theorem encSlow_snd (k : Nat) (a : App) (st t : Int) (v : Nat) :
+    (encSlow k true a st t v).2 = { a with st := st, t := t, v := baseOf a.v v, tDelta := toU (t - a.t),
+            stDiff := wrapI (a.t - st),
+            leading := (encodeJoint a.v a.leading a.trailing (dodOf a t) v).2.1,
+            trailing := (encodeJoint a.v a.leading a.trailing (dodOf a t) v).2.2, fsco := k } := rfl
+
+theorem stepN_fast (K : Bool) (F k : Nat) (hk : 2 ≤ k) (a : App) (d : Dec) (st t : Int) (v : Nat) (rest : Bits)
+    (hrel : StRel K F k a d) (hst : I64 st) (ht : I64 t) (hv : v < 2 ^ 64)
+    (hc : a.fsco = 0 ∧ st = a.st ∧ k ≠ 127)
+    (hpost : Post K F (k + 1) (encNext k a st t v).2) :
+    ∃ d', decNext F k d ((encNext k a st t v).1 ++ rest) = some (d', rest) ∧
+      StRel K F (k + 1) (encNext k a st t v).2 d' ∧ d'.st = st ∧ d'.t = t ∧ d'.val = v := by
+  obtain ⟨hw, ⟨hb, hbl⟩, hts, htd, ⟨hs, hsi⟩, _, hkn, hact, hpas⟩ := hrel
+  obtain ⟨e1, i1⟩ := hts (by omega)
+  obtain ⟨e2, i2⟩ := htd hk
+  have hkn' := hkn (by omega)
+  have htv : TVRel a d := ⟨hw, hb, hbl, e1, i1, e2, i2⟩
+  rw [encNext_fast k a st t v hc] at hpost ⊢
+  rw [encFast_fst, encFast_snd] at hpost ⊢
+  obtain ⟨p1, p2, p3⟩ := hpost
+  obtain ⟨hf0, hsa, hn⟩ := hc
+  obtain ⟨dl', dt', hx, hw'⟩ := decTV_tvBits a d t v rest htv ht hv
+  have hF : F = 0 ∨ k + 1 ≤ F := p2 hf0
+  have hcond : ¬ (F > 0 ∧ k ≥ F) := by omega
+  have h127 : k ≤ 127 := (hpas hf0).2
+  refine ⟨{ d with t := t, val := v, base := baseOf a.v v, tDelta := toU (t - a.t), leading := dl', trailing := dt' },
+    ?_, ?_, ?_, rfl, rfl⟩
+  · rw [decNext_of F k d _ _ _ _ _ _ _ _ hx, decST_skip _ _ _ _ _ hcond]
+  · exact ⟨hw', ⟨rfl, baseOf_lt hbl hv⟩, fun _ => ⟨rfl, ht⟩, fun _ => ⟨rfl, toU_lt _⟩, ⟨hs, hsi⟩,
+      fun h => absurd h (by omega), fun _ => hkn', fun h => absurd hf0 h,
+      fun _ => ⟨hF, by omega⟩⟩
+  · show d.st = st
+    rw [← hs, hsa]
+
+
+theorem stepN_active (K : Bool) (F k : Nat) (hk : 2 ≤ k) (a : App) (d : Dec) (st t : Int) (v : Nat) (rest : Bits)
+    (hrel : StRel K F k a d) (hst : I64 st) (ht : I64 t) (hv : v < 2 ^ 64)
+    (hc : ¬ (a.fsco = 0 ∧ st = a.st ∧ k ≠ 127)) (hpos : a.fsco > 0)
+    (hpost : Post K F (k + 1) (encNext k a st t v).2) :
+    ∃ d', decNext F k d ((encNext k a st t v).1 ++ rest) = some (d', rest) ∧
+      StRel K F (k + 1) (encNext k a st t v).2 d' ∧ d'.st = st ∧ d'.t = t ∧ d'.val = v := by
+  obtain ⟨hw, ⟨hb, hbl⟩, hts, htd, ⟨hs, hsi⟩, _, hkn, hact, hpas⟩ := hrel
+  obtain ⟨e1, i1⟩ := hts (by omega)
+  obtain ⟨e2, i2⟩ := htd hk
+  have hkn' := hkn (by omega)
+  have htv : TVRel a d := ⟨hw, hb, hbl, e1, i1, e2, i2⟩
+  rw [encNext_active k a st t v hc hpos] at hpost ⊢
+  rw [encActive_fst, encActive_snd] at hpost ⊢
+  obtain ⟨p1, p2, p3⟩ := hpost
+  have hne : a.fsco ≠ 0 := by omega
+  obtain ⟨hF, hlt, hsd, hsdi⟩ := hact hne
+  obtain ⟨dl', dt', hx, hw'⟩ := decTV_tvBits a d t v
+    (putVarbitInt (wrapI (wrapI (a.t - st) - a.stDiff)) ++ rest) htv ht hv
+  have hcond : F > 0 ∧ k ≥ F := by omega
+  have hneq : ¬ (k = F) := by omega
+  have hsd' : wrapI (d.stDiff + wrapI (wrapI (a.t - st) - a.stDiff)) = wrapI (a.t - st) := by
+    rw [← hsd, sd_rt (wrapI_I64 _)]
+  have hst' : wrapI (d.t - wrapI (a.t - st)) = st := by rw [← e1, st_rt hst]
+  refine ⟨{ d with t := t, val := v, base := baseOf a.v v, tDelta := toU (t - a.t), leading := dl', trailing := dt',
+                   stDiff := wrapI (a.t - st), st := st }, ?_, ?_, rfl, rfl, rfl⟩
+  · rw [List.append_assoc, decNext_of F k d _ _ _ _ _ _ _ _ hx,
+      decST_read _ _ _ _ _ _ _ hcond (readVarbitInt_put _ rest (wrapI_I64 _))]
+    simp only [if_neg hneq, hsd', hst']
+  · exact ⟨hw', ⟨rfl, baseOf_lt hbl hv⟩, fun _ => ⟨rfl, ht⟩, fun _ => ⟨rfl, toU_lt _⟩,
+      ⟨rfl, hst⟩, fun h => absurd h (by omega), fun _ => hkn',
+      fun _ => ⟨hF, by show a.fsco < k + 1; omega, rfl, wrapI_I64 _⟩, fun h => absurd h hne⟩
+
+
+theorem stepN_slow (K : Bool) (F k : Nat) (hk : 2 ≤ k) (a : App) (d : Dec) (st t : Int) (v : Nat) (rest : Bits)
+    (hrel : StRel K F k a d) (hst : I64 st) (ht : I64 t) (hv : v < 2 ^ 64)
+    (hc : ¬ (a.fsco = 0 ∧ st = a.st ∧ k ≠ 127)) (hpos : ¬ a.fsco > 0)
+    (hpost : Post K F (k + 1) (encNext k a st t v).2) :
+    ∃ d', decNext F k d ((encNext k a st t v).1 ++ rest) = some (d', rest) ∧
+      StRel K F (k + 1) (encNext k a st t v).2 d' ∧ d'.st = st ∧ d'.t = t ∧ d'.val = v := by
+  obtain ⟨hw, ⟨hb, hbl⟩, hts, htd, ⟨hs, hsi⟩, _, hkn, hact, hpas⟩ := hrel
+  obtain ⟨e1, i1⟩ := hts (by omega)
+  obtain ⟨e2, i2⟩ := htd hk
+  have hkn' := hkn (by omega)
+  have htv : TVRel a d := ⟨hw, hb, hbl, e1, i1, e2, i2⟩
+  rw [encNext_slow k a st t v hc hpos] at hpost ⊢
+  rw [encSlow_fst, encSlow_snd] at hpost ⊢
+  obtain ⟨p1, p2, p3⟩ := hpost
+  have hF : k = F := p1 (by show ¬ (k = 0); omega)
+  obtain ⟨dl', dt', hx, hw'⟩ := decTV_encodeJoint a d t v (putVarbitInt (wrapI (a.t - st)) ++ rest) htv ht hv
+  have hcond : F > 0 ∧ k ≥ F := by omega
+  have hst' : wrapI (d.t - wrapI (a.t - st)) = st := by rw [← e1, st_rt hst]
+  refine ⟨{ d with t := t, val := v, base := baseOf a.v v, tDelta := toU (t - a.t), leading := dl', trailing := dt',
+                   stDiff := wrapI (a.t - st), st := st }, ?_, ?_, rfl, rfl, rfl⟩
+  · rw [List.append_assoc, decNext_of F k d _ _ _ _ _ _ _ _ hx,
+      decST_read _ _ _ _ _ _ _ hcond (readVarbitInt_put _ rest (wrapI_I64 _))]
+    simp only [if_pos hF, hst']
+  · exact ⟨hw', ⟨rfl, baseOf_lt hbl hv⟩, fun _ => ⟨rfl, ht⟩, fun _ => ⟨rfl, toU_lt _⟩,
+      ⟨rfl, hst⟩, fun h => absurd h (by omega), fun _ => hkn',
+      fun _ => ⟨hF, by show k < k + 1; omega, rfl, wrapI_I64 _⟩,
+      fun h => absurd h (by show ¬ (k = 0); omega)⟩
+
+
+-/
